@@ -18,6 +18,7 @@ from sim import chip_pn53x as P
 from sim import chip_rcs380 as R
 from sim import chip_udp as U
 from sim import chip_crc as CRC
+from sim import chip_ops as O
 
 DRIVERS = ("pn531", "pn532", "pn533", "rcs956", "acr122", "arygon", "rcs380", "udp")
 PN53X_LINK = ("pn531", "pn532", "pn533", "rcs956", "arygon")          # chip's own host link (ACK + frames)
@@ -41,35 +42,43 @@ def quiet():
 class Rig(object):
     """One driver on its simulator, under a real ContactlessFrontend."""
 
-    def __init__(self, driver):
+    def __init__(self, driver, ops=False):
+        """ops=True: the scriptable chips / datagram world of sim/chip_ops.py (sense and listen operations)"""
         quiet()
         self.driver = driver
+        self.ops = ops
+        pn53x = O.SimPn53xOps if ops else P.SimPn53x
         self.clock = clock = P.VClock()
         for m in _TIME_MODULES:
             m.time = clock
         nfc.clf.pn532.sys = _Sys()
         self.net = None
         if driver in ("pn531", "pn532", "pn533", "rcs956"):
-            self.chip = P.SimPn53x(driver)
+            self.chip = pn53x(driver)
             self.transport = P.FrameTransport(self.chip, clock, "TTY" if driver == "pn532" else "USB")
             mod = getattr(nfc.clf, driver)
             self.device = mod.init(self.transport)
         elif driver == "acr122":
-            self.chip = P.SimPn53x("pn532")
+            self.chip = pn53x("pn532")
             self.transport = P.Acr122Transport(self.chip, clock)
             self.device = nfc.clf.acr122.init(self.transport)
         elif driver == "arygon":
-            self.chip = P.SimPn53x("pn532")
+            self.chip = pn53x("pn532")
             self.transport = P.ArygonTransport(self.chip, clock)
             self.device = nfc.clf.arygon.init(self.transport)
         elif driver == "rcs380":
-            self.chip = R.SimRcs380()
+            self.chip = O.SimRcs380Ops() if ops else R.SimRcs380()
             self.transport = R.Rcs380Transport(self.chip, clock)
             self.device = nfc.clf.rcs380.init(self.transport)
         elif driver == "udp":
-            self.net = self.chip = U.Net(clock)
-            nfc.clf.udp.socket = U.FakeSocketModule(self.net)
-            nfc.clf.udp.select = U.FakeSelectModule(self.net)
+            if ops:
+                self.net = self.chip = O.NetOps(clock)
+                nfc.clf.udp.socket = O.FakeSocketModule2(self.net)
+                nfc.clf.udp.select = O.FakeSelectModule2(self.net)
+            else:
+                self.net = self.chip = U.Net(clock)
+                nfc.clf.udp.socket = U.FakeSocketModule(self.net)
+                nfc.clf.udp.select = U.FakeSelectModule(self.net)
             self.transport = None
             self.device = nfc.clf.udp.init("localhost", 54321)
             self.device.rcvd_data = 0
